@@ -258,6 +258,34 @@ func TestC12(t *testing.T) {
 			if c.Mode == "enum" {
 				n = rapid.IntRange(0, 5).Draw(t, "nenum")
 			}
+			longStrings := c.Mode == "enum" && rapid.IntRange(0, 5).Draw(t, "longstrings") == 0
+			if longStrings {
+				// a long enum made of strings only, some of which read like numbers: a number (in
+				// particular a json.Number, whose Go kind is string) equals none of them
+				n = rapid.IntRange(9, 14).Draw(t, "nlong")
+				numberLike := []string{"1", "2.5", "-0", "1e3", "0", "12", "1.0", "100", "-1", "0.5"}
+				seen := map[string]bool{}
+				for len(c.List) < n {
+					var sv string
+					if rapid.Bool().Draw(t, "numlike") {
+						sv = rapid.SampledFrom(numberLike).Draw(t, "numlikestr")
+					} else {
+						sv = rapid.SampledFrom(jv.StrPool).Draw(t, "plainstr") + fmt.Sprint(len(c.List))
+					}
+					if !seen[sv] {
+						seen[sv] = true
+						c.List = append(c.List, jv.StrV(sv))
+					}
+				}
+				if rapid.IntRange(0, 2).Draw(t, "numinst") > 0 {
+					c.Inst = jv.NumV(rapid.SampledFrom(numberLike).Draw(t, "numinsttext"))
+				} else {
+					c.Inst = jv.EquivalentCopy(t, c.List[rapid.IntRange(0, n-1).Draw(t, "strinst")])
+				}
+				nt = true
+				rec.Class("enum:long-all-strings")
+				break
+			}
 			for i := 0; i < n; i++ {
 				c.List = append(c.List, jv.Gen(vo).Draw(t, "listval"))
 			}
